@@ -150,6 +150,33 @@ func runC03(c *Ctx, w *World, r *Report) {
 			})
 		}
 		r.Check(bad == "", "R-CONTRACT-LEVEL", "bmtree.PathToIndex", w.Pos(fns["bmtree.PathToIndex"].Pos()), bad, fmt.Sprintf("%d level contracts, each about PathLen(path)", ncall))
+		// PathToIndexLoose exists for nodes on levels the bitmap does NOT store (it reports them through `has`): no
+		// contract reachable from it may demand the level (directly or through a shared helper)
+		loose := fns["bmtree.PathToIndexLoose"]
+		badL := ""
+		var reach func(f *ssa.Function, seen map[*ssa.Function]bool, via string)
+		reach = func(f *ssa.Function, seen map[*ssa.Function]bool, via string) {
+			if f == nil || seen[f] || f.Blocks == nil || !w.InModule(f) {
+				return
+			}
+			seen[f] = true
+			if f == target {
+				badL = "the level contract bitmapMustHaveLevel is reachable from PathToIndexLoose (" + via + "): in a debug build the Loose variant rejects exactly the nodes it exists for (levels absent from the bitmap)"
+				return
+			}
+			for _, af := range f.AnonFuncs {
+				reach(af, seen, via+" -> closure")
+			}
+			eachInstr(f, func(ins ssa.Instruction) {
+				if call, ok := ins.(*ssa.Call); ok {
+					if cal := call.Common().StaticCallee(); cal != nil && cal != fns["bmtree.PathToIndex"] {
+						reach(cal, seen, via+" -> "+cal.Name())
+					}
+				}
+			})
+		}
+		reach(loose, map[*ssa.Function]bool{}, "PathToIndexLoose")
+		r.Check(badL == "", "R-CONTRACT-LEVEL", "bmtree.PathToIndexLoose", w.Pos(loose.Pos()), badL, "no level contract reachable from PathToIndexLoose")
 	}
 
 	// ---- R-CONTRACT-TYPES (meaningful where the calls exist with their arguments: both builds type-check them)
